@@ -399,10 +399,19 @@ pub struct RespSpec {
     pub delay_ns: u64,
     /// send exactly these bytes as the response
     pub raw: Option<Vec<u8>>,
+    /// *early response* (C03 `early_response` family): answer as soon as the request head plus this many
+    /// decoded body bytes have been read, instead of waiting for the end of the request. Everything else
+    /// of the spec applies as usual: `close_after` (announced) / `silent_close_after` close the connection
+    /// once the answer is written, otherwise the backend keeps reading (the rest of the request is read
+    /// and discarded, it is not answered a second time, and whatever follows is a new request);
+    /// `fault: CloseAt(0)` = read that many body bytes, then close without answering. A request that is
+    /// already complete when it is noticed is answered the ordinary way.
+    #[serde(default)]
+    pub early_after_body: Option<u64>,
 }
 impl RespSpec {
     pub fn ok(body: BodySpec) -> RespSpec {
-        RespSpec { status: 200, headers: vec![], body, fault: None, close_after: false, silent_close_after: false, delay_ns: 0, raw: None }
+        RespSpec { status: 200, headers: vec![], body, fault: None, close_after: false, silent_close_after: false, delay_ns: 0, raw: None, early_after_body: None }
     }
     pub fn render(&self, id: u64) -> Vec<u8> {
         if let Some(r) = &self.raw { return r.clone(); }
@@ -454,6 +463,9 @@ pub struct BackConnRecord {
     /// (request id, bytes of the response written, total)
     pub responded: Vec<(u64, usize, usize)>,
     pub t_close: u64,
+    /// early responses: (request id, bytes received on this connection when the answer was decided)
+    #[serde(default)]
+    pub early: Vec<(u64, u64)>,
 }
 
 struct BConn {
@@ -469,6 +481,8 @@ struct BConn {
     cur_id: u64,
     dead: bool,
     stalled: bool,
+    /// index (in `parser.done`) the request that was answered early will take once it is complete
+    early_idx: Option<usize>,
 }
 
 pub struct H1Backend {
@@ -541,6 +555,38 @@ impl H1Backend {
             }
         }
         // pick up the next request to answer
+        // a request that was answered early is not answered again when its last byte arrives
+        if c.early_idx.is_some_and(|i| i == c.answered && i < c.parser.done.len()) { c.answered += 1; c.early_idx = None; progressed = true; }
+        // early response: every complete request is answered, the one in progress has reached its mark
+        if c.out_pos >= c.out.len() && !c.stalled && !c.dead && c.early_idx.is_none() && c.answered == c.parser.done.len() {
+            if let Some(cur) = c.parser.cur.as_ref() {
+                let id = cur.sim_id.unwrap_or(u64::MAX);
+                let spec = self.plan.responses.get(&id).unwrap_or(&self.plan.default);
+                if let Some(k) = spec.early_after_body { if cur.body_len >= k {
+                    let spec = spec.clone();
+                    if c.ready_at == 0 { c.ready_at = now + spec.delay_ns; }
+                    if now >= c.ready_at {
+                        c.out = spec.render(id);
+                        c.out_pos = 0;
+                        c.cur_id = id;
+                        c.limit = None;
+                        c.after = if spec.close_after || spec.silent_close_after || matches!(spec.body, BodySpec::Close(_)) { 1 } else { 0 };
+                        match &spec.fault {
+                            Some(RespFault::CloseAt(k)) => { c.limit = Some((*k).min(c.out.len())); c.after = 1; w.stats.fault("backend_close_at"); }
+                            Some(RespFault::StallAt(k)) => { c.limit = Some((*k).min(c.out.len())); c.after = 2; w.stats.fault("backend_stall_at"); }
+                            Some(RespFault::Garbage(_)) => { c.after = 1; w.stats.fault("backend_garbage"); }
+                            None => {}
+                        }
+                        w.stats.fault("backend_early_response");
+                        c.early_idx = Some(c.parser.done.len());
+                        c.ready_at = 0;
+                        c.rec.responded.push((id, 0, c.out.len()));
+                        c.rec.early.push((id, c.rec.raw_in_total));
+                        progressed = true;
+                    }
+                } }
+            }
+        }
         if c.out_pos >= c.out.len() && !c.stalled && c.answered < c.parser.done.len() {
             let req = &c.parser.done[c.answered];
             let id = req.sim_id.unwrap_or(u64::MAX);
@@ -630,7 +676,7 @@ impl Actor for H1Backend {
                     self.conns.push(BConn {
                         fd, parser: Parser::new(Kind::Request),
                         rec: BackConnRecord { idx, t_accept: w.now, ..Default::default() },
-                        out: Vec::new(), out_pos: 0, limit: None, after: 0, answered: 0, ready_at: 0, cur_id: 0, dead: false, stalled: false,
+                        out: Vec::new(), out_pos: 0, limit: None, after: 0, answered: 0, ready_at: 0, cur_id: 0, dead: false, stalled: false, early_idx: None,
                     });
                 }
             }
